@@ -24,9 +24,11 @@ fn file_stat(path: &Path) -> Option<libc::stat> {
 
 fn direntry_to_descriptor(buffer: &mut DumpBuf, entry: &DirEntry) -> Option<MDRawHandleDescriptor> {
     let handle = filename_to_fd(&entry.file_name())?;
-    let realpath = fs::read_link(entry.path()).ok()?;
+    // The descriptor is listed even if the kernel cannot describe it completely (a link text
+    // longer than a path may be, an object that is gone): what is not known is left blank.
+    let realpath = fs::read_link(entry.path()).unwrap_or_default();
     let path_rva = write_string_to_location(buffer, realpath.to_string_lossy().as_ref()).ok()?;
-    let stat = file_stat(&entry.path())?;
+    let st_mode = file_stat(&entry.path()).map_or(0, |stat| stat.st_mode);
 
     // TODO: We store the contents of `st_mode` into the `attributes` field, but
     // we could also store a human-readable string of the file type inside
@@ -37,7 +39,7 @@ fn direntry_to_descriptor(buffer: &mut DumpBuf, entry: &DirEntry) -> Option<MDRa
         handle,
         type_name_rva: 0,
         object_name_rva: path_rva.rva,
-        attributes: stat.st_mode,
+        attributes: st_mode,
         granted_access: 0,
         handle_count: 0,
         pointer_count: 0,
